@@ -265,6 +265,62 @@ def relocation_map(raw):
     return m
 
 
+def rename_map(raw):
+    """Functions / methods that were RENAMED in place: inside one parent (module, or type with its impls) exactly one
+    reference function is gone, exactly one new function appeared, and both take the same number of parameters.  Maps the
+    new path to the reference path.  Anything less clear (two candidates, different arity) is left alone and the anchor is
+    reported missing."""
+    ref = ref_items(raw["crate"], raw.get("config"))
+    if not ref or not ref.get("params"):
+        return {}
+    rp = ref["params"]
+    cur = {}
+    for b in raw["bodies"]:
+        if b["kind"] in ("Fn", "AssocFn"):
+            cur.setdefault(norm(b["path"]), b["argc"])
+    gone, new = {}, {}
+    for p_, names in rp.items():
+        if p_ not in cur:
+            gone.setdefault(p_.rsplit("::", 1)[0] if "::" in p_ else "", []).append(p_)
+    for p_ in cur:
+        if p_ not in rp:
+            new.setdefault(p_.rsplit("::", 1)[0] if "::" in p_ else "", []).append(p_)
+    m = {}
+    for parent, g in gone.items():
+        n = new.get(parent, [])
+        if len(g) == 1 and len(n) == 1 and len(rp[g[0]]) == cur[n[0]] and not parent.startswith("<"):
+            m[n[0]] = g[0]
+    return m
+
+
+def rename_in_place(raw, mapping):
+    """Apply rename_map to the parsed facts: every path string whose normalised form has a renamed function as a whole
+    path prefix gets the reference name back for that segment."""
+    if not mapping:
+        return raw
+    lasts = {new.rsplit("::", 1)[-1]: (new, old.rsplit("::", 1)[-1]) for new, old in mapping.items()}
+    rxs = {nl: re.compile(r"(?<=::)" + re.escape(nl) + r"(?![A-Za-z0-9_])|^" + re.escape(nl) + r"(?![A-Za-z0-9_])") for nl in lasts}
+
+    def fix(sv):
+        for nl, (new, oldlast) in lasts.items():
+            if nl not in sv:
+                continue
+            n_ = norm(sv) or ""
+            if n_ == new or n_.startswith(new + "::") or (" " + new) in n_ or ("{" + new) in n_ or n_.endswith(new + "}"):
+                sv = rxs[nl].sub(oldlast, sv)
+        return sv
+
+    def walk(o):
+        if isinstance(o, dict):
+            return {k: walk(v) for k, v in o.items()}
+        if isinstance(o, list):
+            return [walk(v) for v in o]
+        if isinstance(o, str) and "::" in o or isinstance(o, str) and o in lasts:
+            return fix(o)
+        return o
+    return walk(raw)
+
+
 def relocate_text(text, mapping, prefix=""):
     """Rewrite item paths in the fact JSON text (paths appear with generic arguments interleaved, so the item path is
     replaced wherever it occurs as a whole path prefix)."""
@@ -285,6 +341,10 @@ class Facts:
             if m:
                 self.relocated = m
                 self.raw = json.loads(relocate_text(text, m))
+            rm_ = rename_map(self.raw)
+            if rm_:
+                self.relocated = dict(self.relocated, **{"(renamed) " + k: v for k, v in rm_.items()})
+                self.raw = rename_in_place(self.raw, rm_)
             if self.raw["crate"] != "open_coroutine_core":
                 # references into the core crate follow the core crate's own relocation (same tree, default features)
                 try:
